@@ -62,4 +62,10 @@ META = {
         "note": "Only the compute/enqueue window and feed order are controlled; other preemption points are sampled. With the fix in place the lock makes reordered releases impossible, so the schedule now exercises contention (a feed while another pack sits in the window).",
         "technique": "property-based testing (rapid) with harness-controlled schedule (yield hooks), invariant oracle over the output sequence",
     },
+    "C04": {
+        "text": "Generated drop scenarios (live and dropped-while-down, collections and partitions, 1..3 shards, stop points, registration timing) against the real manager; an event-count/ordering oracle on the public event channel with a logical clock. Found the barrier busy loop, two synthetic-drop defects (fixed) and the undersized partition barrier (known finding).",
+        "design_ref": "DESIGN.md section 4 C04",
+        "note": "Restart is modelled by a fresh manager with the catalog state and checkpoints the collection reader would pass; the persisted drop-message table is covered by C17.",
+        "technique": "property-based testing (rapid), scenario generator with logical-clock oracle",
+    },
 }
